@@ -766,3 +766,46 @@ Theorem message_hwb_fed flags B offs bl n nc o s o' e m' : testbit flags bSIPMsg
 Proof.
   intros Hf Hoffs Hfeed H. rewrite (feeds_same _ _ _ _ _ _ Hf Hfeed) in H. exact (message_hwb _ _ _ _ _ _ _ _ _ Hoffs H).
 Qed.
+
+(* ---- the body and the raw-message span ------------------------------------------------------------------------------------------------------------------ *)
+Definition raw_in (B : N) (r : option (N * N)) : Prop := match r with Some (a, l) => a + l <= B | None => True end.
+Lemma body_bnd flags L o m : o <= L ->
+  match msg_body flags L o m with Done _ _ m' => pf_end (m_body m') <= L /\ raw_in L (m_raw m') \/ (pf_end (m_body m') <= L /\ m_raw m' = m_raw m) | _ => True end.
+Proof.
+  intros Ho. unfold msg_body, msg_end. unfold pf_set. rewrite N.ltb_irrefl, N.sub_diag. destruct m as [fl hs body bl raw st offs].
+  cbn -[testbit N.ltb N.add N.sub pf_extend]. unfold pf_extend. cbn [po pl].
+  repeat match goal with
+         | |- context [if ?b then _ else _] => destruct b eqn:?
+         end; try exact I; unfold pf_end, raw_in; cbn -[N.add N.sub N.ltb N.leb testbit]; first [left; split; lia | right; split; [lia|reflexivity]].
+Qed.
+Theorem message_body_wb flags buf offs bl n nc o e m' : offs <= nnat (length buf) ->
+  parse_sipmsg flags buf offs (msg_init bl (repeat hdr0 n) (repeat pfrom0 nc)) = Done o e m' ->
+  pf_end (m_body m') <= nnat (length buf) /\ raw_in (nnat (length buf)) (m_raw m').
+Proof.
+  intros Hoffs. unfold parse_sipmsg, msg_init. cbn -[msg_fline]. unfold msg_fline. cbn -[parse_fline msg_headers msg_fail].
+  pose proof (fline_safe buf offs fline0 Hoffs) as Hfs.
+  destruct (parse_fline buf offs fline0) as [o1 e1 fl| |] eqn:Efl; try discriminate.
+  assert (Hf : forall oo ee m, m_body m = pf0 -> m_raw m = None -> msg_fail flags oo ee m = Done o e m' ->
+            pf_end (m_body m') <= nnat (length buf) /\ raw_in (nnat (length buf)) (m_raw m')).
+  { intros oo ee m Hb Hr H. unfold msg_fail in H.
+    assert (X : m_body m' = m_body m /\ m_raw m' = m_raw m).
+    { destruct ee; try (injection H as _ _ <-; destruct m; split; reflexivity).
+      destruct (testbit flags bSIPMsgNoMoreData); injection H as _ _ <-; destruct m; split; reflexivity. }
+    destruct X as [-> ->]. rewrite Hb, Hr. unfold pf_end, pf0. cbn. split; [lia|exact I]. }
+  destruct e1; try (apply Hf; reflexivity).
+  unfold msg_headers. cbn -[parse_headers msg_body msg_fail].
+  assert (Ho1 : o1 <= nnat (length buf)).
+  { assert (X : fl_inv offs fline0) by (unfold fl_inv, pf_end; cbn; repeat split; lia). specialize (Hfs X). apply Hfs. }
+  pose proof (headers_safe buf o1 (mkhdrs_st (hdrlst_init (repeat hdr0 n)) (Some (phvals_init (repeat pfrom0 nc))))) as Hc.
+  destruct (parse_headers buf o1 _) as [o2 e2 hs| |]; try discriminate.
+  specialize (Hc Ho1 (HSstart_inv o1 o1 _ _ (HSstart_init n nc o1) (N.le_refl _))). destruct Hc as (Ho2 & _).
+  destruct e2; try (apply Hf; reflexivity).
+  intros H. match type of H with msg_body ?f ?L ?oo ?mm = _ => pose proof (body_bnd f L oo mm Ho2) as B end.
+  rewrite H in B. destruct B as [[B1 B2]|[B1 B2]]; split; try exact B1; try exact B2. rewrite B2. exact I.
+Qed.
+Theorem message_body_wb_fed flags B offs bl n nc o s o' e m' : testbit flags bSIPMsgNoMoreData = false -> offs <= nnat (length B) ->
+  feeds flags B offs (msg_init bl (repeat hdr0 n) (repeat pfrom0 nc)) o s ->
+  parse_sipmsg flags B o s = Done o' e m' -> pf_end (m_body m') <= nnat (length B) /\ raw_in (nnat (length B)) (m_raw m').
+Proof.
+  intros Hf Hoffs Hfeed H. rewrite (feeds_same _ _ _ _ _ _ Hf Hfeed) in H. exact (message_body_wb _ _ _ _ _ _ _ _ _ Hoffs H).
+Qed.
